@@ -2,6 +2,7 @@ package ischema
 
 import (
 	"fmt"
+	"sort"
 
 	"github.com/jsightapi/jsight-schema-core/bytes"
 	"github.com/jsightapi/jsight-schema-core/errs"
@@ -22,6 +23,18 @@ func New() ISchema {
 
 func (s ISchema) TypesList() map[string]Type {
 	return s.types
+}
+
+// TypeNames returns the names of all types in a stable (sorted) order.
+// Ranging over TypesList directly makes the outcome depend on map iteration
+// order as soon as more than one type has something to report.
+func (s ISchema) TypeNames() []string {
+	names := make([]string, 0, len(s.types))
+	for name := range s.types {
+		names = append(names, name)
+	}
+	sort.Strings(names)
+	return names
 }
 
 // MustType returns *ISchema or panic if not found.
